@@ -41,6 +41,8 @@ type Network struct {
 	SendErr func(to peer.ID, msg datatransfer.Message) error
 	// ConnErr is returned by ConnectTo / ConnectWithRetry
 	ConnErr error
+	// ConnErrFn, if set, decides the result of each connect call instead
+	ConnErrFn func(p peer.ID) error
 	// OnSend, if set, is called (outside the lock) after the send was recorded
 	OnSend func(Sent)
 	// SendDelay makes every send take that long (it ends early, with the
@@ -105,18 +107,28 @@ func (n *Network) Delegate() network.Receiver {
 	return n.delegate
 }
 
-func (n *Network) ConnectTo(ctx context.Context, p peer.ID) error {
+func (n *Network) connect(kind string, p peer.ID) error {
 	n.mu.Lock()
 	defer n.mu.Unlock()
-	n.calls = append(n.calls, NetCall{Seq: NextSeq(), Kind: "connect", Peer: p, Err: n.ConnErr})
-	return n.ConnErr
+	err := n.ConnErr
+	if n.ConnErrFn != nil {
+		err = n.ConnErrFn(p)
+	}
+	n.calls = append(n.calls, NetCall{Seq: NextSeq(), Kind: kind, Peer: p, Err: err})
+	return err
 }
 
+func (n *Network) ConnectTo(ctx context.Context, p peer.ID) error { return n.connect("connect", p) }
+
 func (n *Network) ConnectWithRetry(ctx context.Context, p peer.ID) error {
+	return n.connect("connectretry", p)
+}
+
+// SetConnErrFn installs the per-call connect result function.
+func (n *Network) SetConnErrFn(f func(p peer.ID) error) {
 	n.mu.Lock()
-	defer n.mu.Unlock()
-	n.calls = append(n.calls, NetCall{Seq: NextSeq(), Kind: "connectretry", Peer: p, Err: n.ConnErr})
-	return n.ConnErr
+	n.ConnErrFn = f
+	n.mu.Unlock()
 }
 
 func (n *Network) ID() peer.ID { return n.self }
